@@ -7,6 +7,7 @@ import (
 	"fmt"
 	"go/types"
 	"math/big"
+	"os"
 	"strconv"
 	"strings"
 )
@@ -53,6 +54,55 @@ func (ev *Env) Bool(e *Expr) (t Term, err error) {
 		efail("expression is not boolean: %s", e.String())
 	}
 	return v.T, nil
+}
+
+// Goal evaluates a boolean expression that is to be proved: top-level
+// universal quantifiers (also on the right of ==> and under &&-free
+// positions) are replaced by fresh constants, so that a failing goal yields a
+// model and the solver sees fewer quantifier alternations.
+func (ev *Env) Goal(e *Expr) (t Term, err error) {
+	switch {
+	case e.Op == "q" && e.S == "forall":
+		n := ev.child()
+		for _, b := range e.Binds {
+			ty, sorts, spec := ev.safeSort(b.Type)
+			if sorts == nil {
+				return ev.Bool(e)
+			}
+			ls := make([]Term, len(sorts))
+			for i, s := range sorts {
+				ls[i] = ev.c.declConst(ev.c.fresh("sk_"+b.Name), s)
+			}
+			if spec != "" {
+				n.vars[b.Name] = ev.mkOfSpecType(spec, ls)
+			} else {
+				val, _ := ev.c.build(ty, ls)
+				n.vars[b.Name] = val
+				ev.c.assume(ev.v.wfAssume(ev.c, val))
+			}
+		}
+		return n.Goal(e.Args[0])
+	case e.Op == "bin" && e.S == "==>":
+		a, err := ev.Bool(e.Args[0])
+		if err != nil {
+			return "", err
+		}
+		b, err := ev.Goal(e.Args[1])
+		if err != nil {
+			return "", err
+		}
+		return imp(a, b), nil
+	}
+	return ev.Bool(e)
+}
+
+func (ev *Env) safeSort(name string) (t types.Type, sorts []string, spec string) {
+	defer func() {
+		if r := recover(); r != nil {
+			sorts = nil
+		}
+	}()
+	return ev.sortOfTypeName(name)
 }
 
 func (ev *Env) Value(e *Expr) (v Val, err error) {
@@ -649,7 +699,128 @@ func (ev *Env) quant(e *Expr) Val {
 		efail("quantifier body not boolean")
 	}
 	ev.c.hasQ = true
+	var names []string
+	for _, b := range binds {
+		names = append(names, b[1:strings.Index(b, " ")])
+	}
+	if e.S == "forall" && os.Getenv("VCGEN_PATTERNS") != "" {
+		if pats := inferPatterns(body.T, names); len(pats) > 0 {
+			var ps []string
+			for _, p := range pats {
+				ps = append(ps, ":pattern ("+p+")")
+			}
+			return boolVal(fmt.Sprintf("(forall (%s) (! %s %s))", strings.Join(binds, " "), body.T, strings.Join(ps, " ")))
+		}
+	}
 	return boolVal(fmt.Sprintf("(%s (%s) %s)", e.S, strings.Join(binds, " "), body.T))
+}
+
+// inferPatterns proposes E-matching triggers for a quantified contract
+// clause: array reads and applications of uninterpreted functions that
+// contain every bound variable, preferring reads whose index is the variable
+// itself or base+variable.
+func inferPatterns(body Term, vars []string) []string {
+	toks := sexprTokens(body)
+	type cand struct {
+		t     string
+		score int
+	}
+	var cands []cand
+	seen := map[string]bool{}
+	hasAll := func(ts []string) bool {
+		for _, v := range vars {
+			ok := false
+			for _, t := range ts {
+				if t == v {
+					ok = true
+				}
+			}
+			if !ok {
+				return false
+			}
+		}
+		return true
+	}
+	hasAny := func(ts []string) bool {
+		for _, t := range ts {
+			for _, v := range vars {
+				if t == v {
+					return true
+				}
+			}
+		}
+		return false
+	}
+	for i := 0; i < len(toks); i++ {
+		if toks[i] != "(" || i+1 >= len(toks) {
+			continue
+		}
+		head := toks[i+1]
+		end := matchParen(toks, i)
+		sub := toks[i : end+1]
+		switch {
+		case head == "select":
+			// (select A I): A must not mention the variables, I must
+			aStart := i + 2
+			aEnd := aStart
+			if toks[aStart] == "(" {
+				aEnd = matchParen(toks, aStart)
+			}
+			arr := toks[aStart : aEnd+1]
+			idx := toks[aEnd+1 : end]
+			if hasAny(arr) || !hasAll(idx) {
+				continue
+			}
+			score := 3
+			if len(idx) == 1 {
+				score = 0
+			} else if len(idx) == 5 && idx[1] == "bvadd" {
+				score = 1
+			}
+			// arithmetic other than base+var makes a poor trigger
+			for _, t := range idx {
+				if t == "bvsub" || t == "bvmul" || t == "bvneg" {
+					score = 9
+				}
+			}
+			t := joinSexpr(sub)
+			if !seen[t] && score < 9 {
+				seen[t] = true
+				cands = append(cands, cand{t, score})
+			}
+		case strings.HasPrefix(head, "spec_") || head == "strkey" || head == "hasprefix":
+			if !hasAll(sub) {
+				continue
+			}
+			bad := false
+			for _, t := range sub {
+				if t == "bvsub" || t == "bvadd" || t == "ite" || t == "=" || t == "and" || t == "or" || t == "not" || t == "=>" {
+					bad = true
+				}
+			}
+			t := joinSexpr(sub)
+			if !seen[t] && !bad {
+				seen[t] = true
+				cands = append(cands, cand{t, 2})
+			}
+		}
+	}
+	if len(cands) == 0 {
+		return nil
+	}
+	best := 99
+	for _, c := range cands {
+		if c.score < best {
+			best = c.score
+		}
+	}
+	var out []string
+	for _, c := range cands {
+		if c.score <= best+1 && len(out) < 4 {
+			out = append(out, c.t)
+		}
+	}
+	return out
 }
 
 func (ev *Env) call(e *Expr) Val {
@@ -760,6 +931,21 @@ func (ev *Env) call(e *Expr) Val {
 		}
 		in, _ := ev.c.mapLookup(ev.mem, m.T, mt, ev.c.mapKey(mt, ev.coerceTo(k, mt.Key())))
 		return boolVal(in)
+	case "catkey":
+		a, b := arg(0), arg(1)
+		if a.K != KKey || b.K != KKey {
+			efail("catkey needs keys")
+		}
+		ev.c.declFun("catkey", []string{SKey, SKey}, SKey)
+		return Val{K: KKey, T: app("catkey", a.T, b.T)}
+	case "box":
+		// box(value, "pkg.Type"): the interface value holding a concrete value
+		x := arg(0)
+		t := ev.v.lookupType(ev.pkg, e.Args[1].S)
+		if t == nil {
+			efail("unknown type %s", e.Args[1].S)
+		}
+		return ev.c.box(x, t)
 	case "keyof":
 		x := arg(0)
 		if x.K != KSlice {
@@ -839,7 +1025,7 @@ func (ev *Env) call(e *Expr) Val {
 	case "fresh":
 		// fresh(p): p was allocated during the call (not equal to any pre-existing ref)
 		x := arg(0)
-		return boolVal(app("isfresh", x.T))
+		return boolVal(and(app("isfresh", x.T), eq(app("froot", x.T), x.T), app(">", x.T, "0")))
 	case "unchanged":
 		// unchanged(lvalue): value equal in old and current state
 		cur := arg(0)
@@ -865,6 +1051,18 @@ func (ev *Env) call(e *Expr) Val {
 			sum = app("bvadd", sum, iteT(and(app("bvslt", bi, s.Len), eq(ev.c.sliceElem(s, bi).T, cb.T)), bvLit(128, 1), bvLit(128, 0)))
 		}
 		return wideVal(sum)
+	case "same":
+		// representation equality (all leaves equal): a copied value
+		a, b := arg(0), arg(1)
+		la, lb := leaves(a), leaves(b)
+		if len(la) != len(lb) {
+			efail("same(): different shapes")
+		}
+		var ts []Term
+		for i := range la {
+			ts = append(ts, eq(la[i], lb[i]))
+		}
+		return boolVal(and(ts...))
 	case "hasPrefix":
 		s, p := arg(0), arg(1)
 		return boolVal(ev.c.hasPrefixQ(s, p))
